@@ -470,11 +470,43 @@ def _codec_skeleton(ctx, rel, fname, which):
     return site, out
 
 
+def _eof_and_empty_facts(p, upto=None):
+    """(eof, empty): what the decisions of the path (up to an effect) say about 'the codec reached its end-of-stream' and 'the chunk
+    is empty'; None where the path says nothing"""
+    eof = empty = None
+    for e in p.trace:
+        if upto is not None and e is upto:
+            break
+        if e.k != "decision":
+            continue
+        tt, pol = e.test, e.outcome
+        while tt[0] == "not":
+            tt, pol = tt[1], not pol
+        if tt[0] == "attr" and tt[2] == "eof":
+            eof = pol
+            continue
+        v = _nonempty_test(e.test, e.outcome, EV)
+        if v in (True, False):
+            empty = not v
+    return eof, empty
+
+
+def _ended_and_empty(p):
+    eof, empty = _eof_and_empty_facts(p)
+    return eof is True and empty is True
+
+
+def _not_ended_or_not_empty(p, call):
+    eof, empty = _eof_and_empty_facts(p, upto=call)
+    return eof is False or empty is False
+
+
 def rule_compression(ctx: Ctx):
     r1 = RuleResult("OB-1/2", "compression: every chunk goes through the one codec object and its output is emitted; flush output emitted before on_completed")
     r3 = RuleResult("OB-3", "decompress: completing without end-of-stream marker ends in on_error only; exactly one terminal per path")
     r5 = RuleResult("AG-5/6", "gzip wbits agree on both sides and carry the gzip flag; z and zstd have the same skeletons")
     skels = {}
+    skips, guarded = {}, {}
     for rel in ("rxsci/compression/z.py", "rxsci/compression/zstd.py"):
         for fname in ("compress", "decompress"):
             meth = fname
@@ -516,6 +548,13 @@ def rule_compression(ctx: Ctx):
                             r1.ob(bool(ok), lambda: mk_finding("OB-1", spec, None, cfg, p, "a codec failure must surface as exactly one on_error: %s" % summary(p), extra="error"))
                         else:
                             calls = [e for e in p.trace if e.k == "call" and e.d.get("method") == meth]
+                            if not calls and not ems and fname == "decompress" and _ended_and_empty(p):
+                                # an empty chunk after the end of the compressed stream: nothing to decode, nothing to emit
+                                skips[(rel, fname)] = skips.get((rel, fname), 0) + 1
+                                r1.ob(True)
+                                continue
+                            if calls and fname == "decompress":
+                                guarded[(rel, fname)] = guarded.get((rel, fname), True) and _not_ended_or_not_empty(p, calls[0])
                             ok = len(calls) == 1 and tuple(calls[0].args) == (EV,) and len(ems) == 1 and ems[0].method == "on_next" and ems[0].eff.arg == calls[0].result
                             r1.ob(ok, lambda: mk_finding("OB-1", spec, None, cfg, p,
                                                          "every chunk must be passed once to the %s's %s and the result emitted; this path: %s" % (var, meth, list(steps)), extra="chunk"))
@@ -552,11 +591,33 @@ def rule_compression(ctx: Ctx):
             r1.ob(len(used) == 1, lambda: Finding("OB-1", "%s::%s{codec-object}" % (rel, fname), site.where(),
                                                   "the handlers must use one %s created once per subscription in the subscribe function; they call %s" % (
                                                       var, sorted(show(u) for u in used))))
+    # OB-4 library fact: a zstandard decompressobj raises ("cannot use a decompressobj multiple times") on ANY call made after its frame
+    # ended, even with b''; zlib's accepts it.  A re-chunking of the compressed bytes may end with an empty chunk, so the zstd
+    # handler must not hand an empty chunk to the decompressor once the stream has ended.
+    r4 = RuleResult("OB-4", "zstd.decompress: an empty chunk that arrives after the end of the compressed stream is ignored (the zstandard object raises on any "
+                            "call after its frame ended), so that every re-chunking, also one that ends with an empty chunk, completes")
+    r4.instances += 1
+    zs = ("rxsci/compression/zstd.py", "decompress")
+    r4.ob(skips.get(zs, 0) >= 1 and guarded.get(zs, False), lambda: Finding(
+        "OB-4", "rxsci/compression/zstd.py::decompress{after-eof}", "rxsci/compression/zstd.py:1",
+        "every chunk, also an empty one that follows the last byte of the frame, is handed to the zstandard decompression object, which raises ZstdError "
+        "once its frame has ended: the stream [compressed, b''] ends with on_error instead of completing (the same bytes in one chunk complete)"))
+
+    def _strip(sk_list):
+        # the 'ended and empty: ignore' path and the guard decisions in front of the codec call are not part of the shared skeleton
+        out = []
+        for s in sk_list:
+            s2 = tuple(x for x in s if not x.startswith("["))
+            if s2:
+                out.append(s2)
+        return sorted(set(out))
     # AG-6 sibling codecs
     for fname in ("compress", "decompress"):
         for which in ("on_next", "on_completed"):
             a = skels[("rxsci/compression/z.py", fname, which)]
             b = skels[("rxsci/compression/zstd.py", fname, which)]
+            if which == "on_next":
+                a, b = _strip(a), _strip(b)
             r5.instances += 1
             r5.groups.add((fname, which))
             r5.ob(a == b, lambda a=a, b=b, fname=fname, which=which: Finding(
@@ -582,7 +643,7 @@ def rule_compression(ctx: Ctx):
                               "compressobj and decompressobj must use the same wbits with the gzip flag (MAX_WBITS | 16 = 31); found %s" % vals))
     r1.require_instances(4)
     r5.require_instances(5)
-    return [r1, r3, r5]
+    return [r1, r3, r4, r5]
 
 
 _WBITS_MODULE = None
